@@ -29,7 +29,8 @@ PROTO_TRUSTED = ["hashicorp/raft", "NATS delivery semantics as assumed", "Go sch
 
 PROPS = {
     "C01": dict(
-        lean_modules=["Liftbridge.Props.C01", "Liftbridge.Props.Codec"],
+        # Props.GoSegments: the model's segment lookups = the translated bodies of findSegment / findSegmentContains / findSegmentByBaseOffset
+        lean_modules=["Liftbridge.Props.C01", "Liftbridge.Props.Codec", "Liftbridge.Props.GoSegments"],
         gen_sources=LOG_SOURCES,
         runs=[dict(go_pkg="./server/commitlog", test="TestVerifC01"), dict(go_pkg="./server/commitlog", test="TestVerifC01Codec")],
         level="proof",
